@@ -238,6 +238,18 @@ def Union1St (f : Nat) : Prop :=
       initList g (.union ms sz fl0) top c (firstCursor (.union ms sz fl0)) inner true fl = .ok res → res.fl.clean = true →
       defaultMember (.union ms sz fl0) res.obj = c' ∧ res.rest = rest ∧ res.fl = fl)
 
+/-- `union_rest`: the remaining initializers of a union's list, after the member `k` has been initialised (the cursor of the
+    union's list stands behind its one member: `none`) -/
+def UnionRestSt (f : Nat) : Prop :=
+  ∀ {ms : Members} {sz : Nat} {fl0 : Bool} {c : Init} {toks : List ITok} {c' : Init} {rest : List ITok},
+    subOk (.union ms sz fl0) = true → shaped (.union ms sz fl0) c = true →
+    unionRest f ms toks c = .ok (c', rest) →
+    shaped (.union ms sz fl0) c' = true ∧
+    ∀ k cs, c = .union none (some k) cs →
+      (∃ k' cs', c' = .union none (some k') cs') ∧
+      ∀ top g fl res, initList g (.union ms sz fl0) top c none toks false fl = .ok res → res.fl.clean = true →
+        res.obj = c' ∧ res.rest = rest ∧ res.fl = fl
+
 structure Sim (f : Nat) : Prop where
   init2 : Init2St f
   desg : DesgSt f
@@ -253,6 +265,7 @@ structure Sim (f : Nat) : Prop where
   struct1loop : Struct1LoopSt f
   struct1 : Struct1St f
   union1 : Union1St f
+  unionrest : UnionRestSt f
 
 theorem sim_zero : Sim 0 where
   init2 := fun _ h => by cases h
@@ -269,5 +282,6 @@ theorem sim_zero : Sim 0 where
   struct1loop := fun _ _ h => by cases h
   struct1 := fun _ _ h => by cases h
   union1 := fun _ _ h => by cases h
+  unionrest := fun _ _ h => by cases h
 
 end ChibiVerif.InitSpec
